@@ -6,7 +6,7 @@ import json
 import sys
 import tokenize
 
-NAMES = {'x': 'xq', '_x': '_xq', '__x__': '__xq__'}
+NAMES = {'x': 'xq', '_x': '_xq', '__x__': '__xq__', 'x_': 'xq_'}
 
 
 def stmt_for(kind, name):
@@ -84,6 +84,8 @@ def render_row(row):
             lines = st
         elif scope == 'class':
             lines = ['class K:'] + ind(st, 1)
+        elif scope == 'classinfunction':
+            lines = ['def outer():', '    class K:'] + ind(st, 2) + ['    return K']
         elif scope == 'function':
             lines = ['def f():'] + ind(st, 1) + ['    return 0']
         elif scope == 'method':
